@@ -73,4 +73,59 @@ def literalPosting (srcTok dstTok assetTok numTok : List Char) : Except String R
   pure { source := compileAccountLiteral srcTok, destination := compileAccountLiteral dstTok,
          asset, amount := some (digitsToNat numTok) }
 
+/-! ### variables of a script (internal/machine/json.go, `NewValueFromString`) -/
+
+/-- `big.Int.SetString(s, 10)`: optional sign, at least one ASCII digit, nothing else. -/
+def parseBigInt (s : List Char) : Option Int :=
+  let digitsOk := fun (d : List Char) => !d.isEmpty && d.all isDigit
+  match s with
+  | '-' :: d => if digitsOk d then some (-(digitsToNat d : Int)) else none
+  | '+' :: d => if digitsOk d then some (digitsToNat d : Int) else none
+  | d => if digitsOk d then some (digitsToNat d : Int) else none
+
+/-- `case TypeAccount`: the string as given must pass `ValidateAccountAddress`; it
+    is stored unchanged (no trimming). -/
+def newValueAccount (s : List Char) : Except String (List Char) :=
+  if validAddress s then .ok s else .error "accounts should respect pattern"
+
+/-- `case TypeAsset` -/
+def newValueAsset (s : List Char) : Except String (List Char) :=
+  if validAsset s then .ok s else .error "asset should respect pattern"
+
+/-- `strings.SplitN(data, " ", 2)` with two parts -/
+def splitFirstSpace : List Char → Option (List Char × List Char)
+  | [] => none
+  | c :: rest =>
+    if c = ' ' then some ([], rest)
+    else (splitFirstSpace rest).map fun (a, b) => (c :: a, b)
+
+/-- `case TypeMonetary`: `"<asset> <amount>"`, amount through `ParseMonetaryInt`,
+    then `ParseMonetary` (asset pattern, amount not negative). -/
+def newValueMonetary (s : List Char) : Except String (List Char × Int) :=
+  match splitFirstSpace s with
+  | none => .error "monetary must have two parts"
+  | some (asset, amt) =>
+    match parseBigInt amt with
+    | none => .error "invalid monetary int"
+    | some n =>
+      if !validAsset asset then .error "asset should respect pattern"
+      else if n < 0 then .error "negative amount"
+      else .ok (asset, n)
+
+/-- The posting of `send $mon (source = $src … destination = $dst)` with two
+    `account` variables and one `monetary` variable (also when `$dst` comes from
+    account metadata through `meta()`: same parser). -/
+def variablePosting (src dst mon : List Char) : Except String RawPosting := do
+  let s ← newValueAccount src
+  let d ← newValueAccount dst
+  let (asset, n) ← newValueMonetary mon
+  pure { source := s, destination := d, asset, amount := some n }
+
+/-- … and of `send [$ass <number>] (…)` with an `asset` variable. -/
+def assetVariablePosting (src dst asset numTok : List Char) : Except String RawPosting := do
+  let s ← newValueAccount src
+  let d ← newValueAccount dst
+  let a ← newValueAsset asset
+  pure { source := s, destination := d, asset := a, amount := some (digitsToNat numTok) }
+
 end Ledger.Chart
